@@ -11,6 +11,13 @@ import re
 from .emit import DEFAULT_SENTINEL, comp_data
 
 
+class TooBig(Exception):
+    """The program's rendering explodes combinatorially (nested loops x nested components): not executed at all."""
+
+
+NODE_CAP = 150_000
+
+
 class ModelError(Exception):
     def __init__(self, kind, msg=""):
         super().__init__(kind + ": " + msg)
@@ -146,6 +153,8 @@ class Model:
     def render_nodes(self, nodes, env, owner, prov, out, ck):
         for n in nodes:
             self.node_renders += 1
+            if self.node_renders > NODE_CAP:
+                raise TooBig()
             k = n[0]
             if k == "text":
                 out.append(n[1])
@@ -559,6 +568,8 @@ def run_model(prog, quirks=()):
     m = Model(prog, quirks=quirks)
     try:
         stream = m.render_page()
+    except TooBig:
+        return {"result": ("toobig", "TooBig", "more than %d node renders" % NODE_CAP), "model": m, "stream": None}
     except ModelError as e:
         return {"result": ("err", e.kind, e.msg), "model": m, "stream": None}
     return {"result": ("ok", stream_text(stream)), "model": m, "stream": stream}
